@@ -34,7 +34,7 @@ func genC09(t *rapid.T, tier string) HistCase {
 func genC09base(t *rapid.T, tier string) HistCase {
 	return genHist(t, tier, core.GenOpts{
 		Keys:     []string{core.KLK, core.KLK, core.KLK, core.KLK, core.KInt, core.KUint64, core.KString, core.KBytes, core.KStruct, core.KInt64, core.KUint, core.KInt32, core.KUint16, core.KNamed},
-		Vals:     []string{core.VInt, core.VString},
+		Vals:     []string{core.VInt, core.VInt, core.VString, core.VString, core.VTags, core.VNil},
 		BigOneIn: 10,
 	}, c09Weights, 70, 140, 40, 2)
 }
